@@ -152,32 +152,69 @@ pub fn worker(case: &Value) -> Value {
         let o = run_pipeline(text, &RunOpts::default());
         return json!({"n": 1, "bad": [], "observed": {"stdout": o.stdout_str(), "end": format!("{:?}", o.end)}});
     }
-    let nodes = case["nodes"].as_u64().unwrap() as usize;
     let lo = case["lo"].as_u64().unwrap() as usize;
     let hi = case["hi"].as_u64().unwrap() as usize;
-    let last = case["last"].as_bool().unwrap_or(false);
-    let in_sub = case["sub"].as_bool().unwrap_or(false);
-    let all = forests(nodes);
+    // base programs: (program, shape label)
+    let mut bases: Vec<(vcore::gast::Prog, String)> = vec![];
+    if case["src"].as_str() == Some("fault") {
+        use vcore::gen05::{CONTAINERS, FAULTS, HANDLERS, fault_cases, fault_program};
+        for (f, c, p, h, ch) in fault_cases().into_iter().skip(lo).take(hi - lo) {
+            // containers that hold a rewritable construct; one representative fault kind per family
+            if !matches!(c, 1 | 2 | 3 | 4 | 5 | 6 | 10 | 11 | 12 | 13 | 14 | 15 | 16) || !matches!(f, 0 | 2 | 5) || ch {
+                continue;
+            }
+            if let Some(prog) = fault_program(f, c, p, h, ch) {
+                bases.push((prog, format!("fault|{}|{}|pos{}|{}", FAULTS[f], CONTAINERS[c], p, HANDLERS[h])));
+            }
+        }
+    } else {
+        let nodes = case["nodes"].as_u64().unwrap() as usize;
+        let last = case["last"].as_bool().unwrap_or(false);
+        let in_sub = case["sub"].as_bool().unwrap_or(false);
+        for f in forests(nodes).iter().skip(lo).take(hi - lo) {
+            bases.push((if in_sub { control_program_in_sub(f, last) } else { control_program(f, last) }, describe(f)));
+        }
+    }
     let mut bads = vec![];
     let mut n = 0u64;
     let mut nontrivial = 0u64;
     let mut hist: std::collections::BTreeMap<String, u64> = Default::default();
     let mut sample = Value::Null;
-    let opts = RunOpts { budget: 400_000, ..RunOpts::default() };
-    for f in all.iter().skip(lo).take(hi - lo) {
-        let base = if in_sub { control_program_in_sub(f, last) } else { control_program(f, last) };
-        let base_text = print_default(&base).text;
+    let opts = RunOpts { budget: 400_000, collect_files: true, ..RunOpts::default() };
+    for (base, shape) in &bases {
+        let base_text = print_default(base).text;
         let base_out = run_pipeline(&base_text, &opts);
-        let executed = run_reference(&base, b"", &[]).executed;
+        let executed = run_reference(base, b"", &[]).executed;
+        // the same program with every loop / SELECT CASE that holds no block IF on ONE source line
+        {
+            let text = vcore::gprint::print(base, &vcore::gprint::Layout { one_line_blocks: true, ..Default::default() }).text;
+            if text != base_text {
+                let out = run_pipeline(&text, &opts);
+                n += 1;
+                nontrivial += 1;
+                let same = out.stdout == base_out.stdout && out.lpt1 == base_out.lpt1 && out.end.class() == base_out.end.class();
+                *hist.entry(if same { "same".to_string() } else { "different".to_string() }).or_insert(0) += 1;
+                if !same && bads.len() < 25 {
+                    bads.push(json!({
+                        "sig": format!("C02|OneLineLayout|{}->{}|{}", base_out.end.class(), out.end.class(), shape),
+                        "summary": format!("writing the loops on one source line changes behaviour: original prints {:?} ({}), one-line form prints {:?} ({}) — original: {:?} — one-line: {:?}",
+                            base_out.stdout_str(), base_out.end.class(), out.stdout_str(), out.end.class(), super::truncate_text(&base_text, 300), super::truncate_text(&text, 400)),
+                        "text": text,
+                        "original": base_text,
+                        "case": {"text": text},
+                    }));
+                }
+            }
+        }
         for rule in RULES {
-            let (all_prog, ids) = rewrite(&base, rule, None);
+            let (all_prog, ids) = rewrite(base, rule, None);
             if ids.is_empty() {
                 continue;
             }
             let mut variants = vec![(all_prog, ids.clone(), "all sites".to_string())];
             if ids.len() > 1 {
                 for site in 0..ids.len() {
-                    let (p, one) = rewrite(&base, rule, Some(site));
+                    let (p, one) = rewrite(base, rule, Some(site));
                     variants.push((p, one, format!("site {}", site)));
                 }
             }
@@ -190,13 +227,13 @@ pub fn worker(case: &Value) -> Value {
                     nontrivial += 1;
                 }
                 if sample.is_null() {
-                    sample = json!({"rule": format!("{:?}", rule), "shape": describe(f), "original": base_text, "rewritten": text});
+                    sample = json!({"rule": format!("{:?}", rule), "shape": shape, "original": base_text, "rewritten": text});
                 }
                 let same = out.stdout == base_out.stdout && out.lpt1 == base_out.lpt1 && out.end.class() == base_out.end.class();
                 *hist.entry(if same { "same".to_string() } else { "different".to_string() }).or_insert(0) += 1;
                 if !same && bads.len() < 25 {
                     bads.push(json!({
-                        "sig": format!("C02|{:?}|{}->{}|{}", rule, base_out.end.class(), out.end.class(), describe(f)),
+                        "sig": format!("C02|{:?}|{}->{}|{}", rule, base_out.end.class(), out.end.class(), shape),
                         "summary": format!(
                             "rule {:?} at {} changes behaviour: original prints {:?} ({}), rewritten prints {:?} ({}) — original: {:?} — rewritten: {:?}",
                             rule, which, base_out.stdout_str(), base_out.end.class(), out.stdout_str(), out.end.class(),
@@ -236,6 +273,16 @@ pub fn drive(tier: &str) -> i32 {
             plan.push(json!({"nodes": nodes, "children_in_last_body": last, "inside_sub": in_sub, "base_programs": total}));
         }
     }
+    // programs with one failing statement inside a rewritable construct, under every handler mode
+    {
+        let total = vcore::gen05::fault_cases().len();
+        let mut lo = 0;
+        while lo < total {
+            cases.push(json!({"src": "fault", "lo": lo, "hi": (lo + 150).min(total)}));
+            lo += 150;
+        }
+        plan.push(json!({"base": "one failing statement (division by zero / subscript / error in a called SUB) x position x handler mode inside IF / ELSE / ELSEIF / single-line IF / CASE / FOR / WHILE / DO bodies", "fault_cases_scanned": total}));
+    }
     let total_cases = cases.len();
     let cap = run.wall_cap_s;
     let t0 = run.reporter.start;
@@ -250,7 +297,7 @@ pub fn drive(tier: &str) -> i32 {
     let group = super::run_text_group(&mut run, &pool, "harvested texts rewritten at token level", &harvested, 20, &json!({"g": "harvested"}));
     plan.push(group);
     let mut ev = Evidence::new("exploration");
-    ev.set("rule", "harvested: every program text embedded in the repository's tests and fixtures that runs, rewritten at token level at all sites by FOR without STEP -> STEP 1, WHILE / WEND -> DO WHILE / LOOP, DO / LOOP UNTIL c -> WHILE NOT (c) when c is a single comparison. base programs: every ordered forest of n construct nodes over 15 construct kinds (see C01 axis A), children in the first or last body, at module level or inside a SUB. Rewrite rules (FOR->WHILE with explicit limit/step temporaries, WHILE->DO WHILE, DO UNTIL c->DO WHILE NOT (c), SELECT CASE->IF/ELSEIF chain on a temporary, single-line IF->block IF, FOR->FOR STEP 1, loop body->IF -1 THEN body END IF) are applied as AST-to-AST functions at every applicable site alone and at all sites together; original and rewritten text are both run on the real pipeline; stdout, LPT1 and end class must be equal. Non-trivial = every rewritten statement was executed in the original run (reference trace).");
+    ev.set("rule", "harvested: every program text embedded in the repository's tests and fixtures that runs, rewritten at token level at all sites by FOR without STEP -> STEP 1, WHILE / WEND -> DO WHILE / LOOP, DO / LOOP UNTIL c -> WHILE NOT (c) when c is a single comparison. base programs: every ordered forest of n construct nodes over 15 construct kinds (see C01 axis A), children in the first or last body, at module level or inside a SUB; and the C05 programs with one failing statement (3 fault kinds x 3 positions x 7 handler modes) inside an IF / ELSE / ELSEIF / single-line IF / CASE / loop body, so that the rewritten construct is also entered and left through the error path. Every base program is also compared with itself written with each loop / SELECT CASE on one source line. Rewrite rules (FOR->WHILE with explicit limit/step temporaries, WHILE->DO WHILE, DO UNTIL c->DO WHILE NOT (c), SELECT CASE->IF/ELSEIF chain on a temporary, single-line IF->block IF, FOR->FOR STEP 1, loop body->IF -1 THEN body END IF) are applied as AST-to-AST functions at every applicable site alone and at all sites together; original and rewritten text are both run on the real pipeline; stdout, LPT1 and end class must be equal. Non-trivial = every rewritten statement was executed in the original run (reference trace).");
     ev.set("exhaustive", !run.capped);
     ev.set("plan", json!(plan));
     ev.assume("the rewrite functions are correct by construction on the generated subset (integer counters, integer SELECT subjects, non-zero steps)");
